@@ -1,10 +1,18 @@
-use palette::{Lab, Lch, FromColor, white_point::D65, color_difference::Ciede2000};
-fn main(){
-    let b = ["0x40424c001ac601d0", "0x3ff39d44fd28f481", "0x405fd35585232b9c", "0x40424c03e3cd0100", "0x3ff3a0cc23a8b862", "0x405fd347ee4dfdd2"];
-    let v: Vec<f64> = b.iter().map(|s| f64::from_bits(u64::from_str_radix(s.trim_start_matches("0x"),16).unwrap())).collect();
-    let la = Lab::<D65,f64>::new(v[0],v[1],v[2]); let lb = Lab::<D65,f64>::new(v[3],v[4],v[5]);
-    println!("{:?} {:?}", la, lb);
-    let (ca, cb) = (Lch::from_color(la), Lch::from_color(lb));
-    println!("{:?} {:?}", ca, cb);
-    println!("lab {} lch {} lab(lch) {} model {:?}", la.difference(lb), ca.difference(cb), Lab::from_color(ca).difference(Lab::from_color(cb)), pvmon::refmodel::diff::ciede2000([v[0],v[1],v[2]],[v[3],v[4],v[5]]));
+use palette::convert::FromColorUnclamped;
+use palette::{Okhsl, Okhsv, Srgb};
+fn main() {
+    // where does Okhsv / Okhsl saturation exceed 1 + 1e-3 for in-gamut colours (f64)?
+    let mut buckets = std::collections::BTreeMap::new();
+    for r in (0..=255).step_by(1) { for g in (0..=255).step_by(1) { for b in (0..=255).step_by(1) {
+        if r != 0 && g != 0 && b != 0 && r != 255 && g != 255 && b != 255 { continue; }
+        let c = Srgb::new(r as f64 / 255.0, g as f64 / 255.0, b as f64 / 255.0);
+        let h = Okhsv::from_color_unclamped(c);
+        let hl = Okhsl::from_color_unclamped(c);
+        let ex = (h.saturation - 1.0).max(hl.saturation - 1.0).max(h.value - 1.0);
+        if ex > 1e-4 {
+            let e = buckets.entry((h.hue.into_positive_degrees() / 2.0) as i32 * 2).or_insert((0u32, 0.0f64, [0, 0, 0]));
+            e.0 += 1; if ex > e.1 { e.1 = ex; e.2 = [r, g, b]; }
+        }
+    }}}
+    for (k, v) in buckets { println!("hue {}..{}: n={} max excess {:.3e} at {:?}", k, k + 2, v.0, v.1, v.2); }
 }
